@@ -817,3 +817,35 @@ def rule_G1obj(ctx):
             ctx.ob(not writable, "c-object-writable-data:%s" % os.path.basename(path), path,
                    "writable sections %s, objects %s" % (writable, sorted(names)) if writable else "no writable data section (sections: %s)" % sorted(k for k in sizes if sizes[k])[:6])
     ctx.floor("C translation units checked at object level", n, 7)
+
+
+def rule_W1C(ctx):
+    """blake3_compress_subtree_wide (C): the two-children shortcut is taken exactly when the LEFT recursion returned one
+    chaining value; otherwise one parent layer is compressed over left_n + right_n children"""
+    for defs in ((), ("BLAKE3_USE_TBB",)):
+        t = tu("c/blake3.c", defs)
+        f = need(t, "blake3_compress_subtree_wide")
+        tag = "+tbb" if defs else ""
+        ifs = [s for s in f["body"] if s[0] == "if" and any(x[0] == "return" and x[1] == ("int", 2) for x in s[2])]
+        ok = len(ifs) == 1 and nc(ifs[0][1]) in (("bin", "==", ("var", "left_n", "var"), ("int", 1)), ("bin", "==", ("int", 1), ("var", "left_n", "var")))
+        ctx.ob(ok, "c-subtree-two-children-iff-left-n-1%s" % tag, where(t, f["line"]),
+               "`return 2` (children copied out unmerged) under %s ; required left_n == 1" % ([cshow(s[1]) for s in ifs] or "no such branch"))
+        if ok:
+            mc = [x for x in ifs[0][2] if x[0] == "expr" and x[1][0] == "call" and x[1][1] == "memcpy"]
+            okc = len(mc) == 1 and nc(mc[0][1][2][0]) == ("var", "out", "param") and nc(mc[0][1][2][1]) == ("var", "cv_array", "var") and r_cbudget_norm(mc[0][1][2][2]) == ("int", 64)
+            ctx.ob(okc, "c-subtree-two-children-copy%s" % tag, where(t, f["line"]), "memcpy(out, cv_array, 2 * BLAKE3_OUT_LEN): %s" % okc)
+        d = {s[1]: s[3] for s in f["body"] if s[0] == "decl"}
+        rets = [s for s in f["body"] if s[0] == "return"]
+        okp = len(rets) == 1 and rets[0][1][0] == "call" and rets[0][1][1] == "compress_parents_parallel" and \
+            nc(rets[0][1][2][0]) == ("var", "cv_array", "var") and nc(rets[0][1][2][1]) == ("var", "num_chaining_values", "var") and \
+            nc(d.get("num_chaining_values")) in (("bin", "+", ("var", "left_n", "var"), ("var", "right_n", "var")), ("bin", "+", ("var", "right_n", "var"), ("var", "left_n", "var")))
+        first = f["body"][0]
+        okl = first[0] == "if" and r_cbudget_norm(first[1]) in (("bin", "<=", ("var", "input_len"), ("bin", "*", ("call", "blake3_simd_degree", ()), ("int", 1024))),) \
+            and any(x[0] == "return" and x[1][0] == "call" and x[1][1] == "compress_chunks_parallel" for x in first[2])
+        ctx.ob(okl, "c-subtree-leaf-width-is-simd-degree%s" % tag, where(t, f["line"]), "leaf case: input_len <= blake3_simd_degree() * BLAKE3_CHUNK_LEN => compress_chunks_parallel: %s" % okl)
+        ctx.ob(okp, "c-subtree-parents-over-all-children%s" % tag, where(t, f["line"]), "return compress_parents_parallel(cv_array, left_n + right_n, ..): %s" % okp)
+
+
+def r_cbudget_norm(e):
+    import r_cbudget
+    return r_cbudget.norm(e)
